@@ -30,7 +30,10 @@ def roundtrip_cases(seed, tier):
 
 def run(tier, seed):
     res = C03.run_generic(PID, MODULE, "C04_", [1], tier, seed, "inverse transform")
-    drv, _ = build_driver()
+    drv, derr = build_driver()
+    if derr:
+        res.broken.append(("model driver build", derr))
+        drv = NO_MODEL
     h, _ = build_harness("O1")
     if drv and h:
         nc.run_cases(res, h, drv, roundtrip_cases(seed, tier), "O1")
